@@ -174,6 +174,9 @@ func (g *gen) object(signerRef string, flavour string, maxExtra int) unsignedDoc
 	case "signer-null":
 		signerVal = "null"
 	case "signer-escaped":
+		if signerRef == "" {
+			break
+		}
 		// the same ref, written with a \u escape for its first letter
 		signerVal = fmt.Sprintf(`"\u%04x%s"`, signerRef[0], signerRef[1:])
 	}
@@ -692,6 +695,23 @@ func Run(r *hk.Run) {
 	g.op("json " + hk.Hex([]byte(strings.Repeat(`{"a":`, 10000)+"1"+strings.Repeat("}", 10000))))
 	g.op("json " + hk.Hex([]byte(strings.Repeat(`{"a":`, 10001)+"1"+strings.Repeat("}", 10001))))
 	r.Hit("json:depth-limit-probed")
+
+	// (1b) every error branch of Sign, deterministically
+	g.newCase("sign-error-branches", g.stdKeys())
+	k0 := g.key[0].ref.String()
+	for _, u := range []string{
+		"", " ", "{", "[1]", `"x"`, "12", "nul", `{"camliSigner":"` + k0 + `"} x`, `{"camliSigner":"` + k0 + `"}` + "\xc2", `{"camliSigner":"` + k0 + `",}`,
+		`{"camliSigner":"` + k0 + `","n":1e999}`, // jsonparse
+		"null", " null \n", "{}", `{"camliVersion":1}`, `{"camlisigner":"` + k0 + `"}`, // nosigner
+		`{"camliSigner":123}`, `{"camliSigner":""}`, `{"camliSigner":null}`, `{"camliSigner":["` + k0 + `"]}`, `{"camliSigner":"` + strings.ToUpper(k0) + `"}`, `{"camliSigner":" ` + k0 + `"}`, // malformed
+		`{"camliSigner":"sha224-` + strings.Repeat("0", 56) + `"}`, `{"camliSigner":"sha1-` + strings.Repeat("0", 40) + `"}`, `{"camliSigner":"foo-0"}`, // nokey
+		`{"camliSigner":"` + g.kn[3].ref.String() + `"}`,                               // badkey
+		`{"camliVersion":1,"camliSigner":"` + g.kn[2].ref.String() + `"}`,             // noentity
+		`{"camliSigner":"` + k0 + `"}`, `{"camliSigner":"` + k0 + `"}` + "\u00a0\u3000\n", `{"camliSigner":"x","camliSigner":"` + k0 + `"}`, // ok (no version)
+		`{"camliVersion":1,"camliSigner":"` + k0 + `"}`, // ok
+	} {
+		g.signDoc(unsignedDoc{text: u}, time.Unix(1400000000, 0))
+	}
 
 	// (2) generated objects: sign, verify, mutate
 	nDocs, nFullSweep, nSetSweep, nRand := 40, 1, 4, 150
